@@ -217,25 +217,59 @@ class Ctx:
     def pmap(self, fname, items, common=None, chunk=None, modname=None):
         """Ordered parallel map of module-level function ``fname(item, common)``
         of the property module over ``items``.  Results come back in input
-        order so that every merge done by the caller is deterministic."""
+        order so that every merge done by the caller is deterministic.
+
+        If a worker process dies (a segfault inside compiled code is a possible
+        consequence of a broken kernel) the affected items are re-run one by
+        one in fresh single-use processes; an item that kills its process again
+        yields ``{"__crash__": True}`` instead of a result, which the engines
+        turn into a violation."""
         items = list(items)
         if not items:
             return []
         modname = modname or self.module.__name__
         if self.workers <= 1 or len(items) == 1:
-            res = _worker_call(modname, fname, items, common)
+            res = self._isolated(modname, fname, items, common) if self.isolate else _worker_call(modname, fname, items, common)
         else:
             if chunk is None:
                 chunk = max(1, min(64, len(items) // (self.workers * 4) or 1))
             chunks = [items[i : i + chunk] for i in range(0, len(items), chunk)]
             futs = [self.pool().submit(_worker_call, modname, fname, c, common) for c in chunks]
             res = []
-            for f in futs:
-                res.extend(f.result())
+            broken = False
+            for f, c in zip(futs, chunks):
+                try:
+                    if broken:
+                        raise cf.process.BrokenProcessPool()
+                    res.extend(f.result())
+                except cf.process.BrokenProcessPool:
+                    if not broken:
+                        broken = True
+                        self.close()
+                    if f.done() and not f.cancelled() and f.exception() is None:
+                        res.extend(f.result())
+                    else:
+                        res.extend(self._isolated(modname, fname, c, common))
         for r in res:
             if isinstance(r, dict) and "__harness_error__" in r:
                 raise HarnessError("worker failed on %r:\n%s" % (r["item"], r["__harness_error__"]))
         return res
+
+    isolate = False
+
+    def _isolated(self, modname, fname, items, common):
+        out = []
+        env = {k: v for k, v in os.environ.items() if k.startswith(("PYTHON", "NUMBA", "OMP", "MKL", "OPENBLAS", "QUIMB", "VERIF"))}
+        for it in items:
+            ex = cf.ProcessPoolExecutor(max_workers=1, mp_context=mp.get_context("forkserver"), initializer=_worker_init, initargs=(env,))
+            try:
+                out.extend(ex.submit(_worker_call, modname, fname, [it], common).result())
+            except cf.process.BrokenProcessPool:
+                self.counters["worker_crashes"] += 1
+                out.append({"__crash__": True})
+            finally:
+                ex.shutdown(wait=False, cancel_futures=True)
+        return out
 
     def close(self):
         if self._pool is not None:
@@ -311,20 +345,27 @@ def determinism_gate(ctx, rec, path):
     mod = ctx.module
     want = sig_key(rec["sig"])
     fps = []
+    crash = rec["sig"].get("root") == "worker-crash"
     for _ in range(2):
+        if crash:
+            continue  # replaying a crashing case in-process would kill the runner
         probs = mod.replay(tuplify(rec["case"]))
         fps.append(_probs_fingerprint(probs))
-    out = subprocess.run(
-        [os.path.join(VERIF, "check"), ctx.prop_id, "--replay", path, "--json"],
-        capture_output=True,
-        text=True,
-        env=dict(os.environ, VERIF_SEED=str(ctx.seed)),
-    )
-    try:
-        line = [l for l in out.stdout.splitlines() if l.startswith("REPLAY-JSON ")][-1]
-        fps.append(sorted(json.loads(line[len("REPLAY-JSON ") :])))
-    except Exception:
-        fps.append(["<fresh interpreter replay failed: %s>" % (out.stderr[-500:],)])
+    for _ in range(2 if crash else 1):
+        out = subprocess.run(
+            [os.path.join(VERIF, "check"), ctx.prop_id, "--replay", path, "--json"],
+            capture_output=True,
+            text=True,
+            env=dict(os.environ, VERIF_SEED=str(ctx.seed)),
+        )
+        try:
+            line = [l for l in out.stdout.splitlines() if l.startswith("REPLAY-JSON ")][-1]
+            fps.append(sorted(json.loads(line[len("REPLAY-JSON ") :])))
+        except Exception:
+            if crash and out.returncode != 0:
+                fps.append([want])  # the fresh interpreter died again: reproduced
+            else:
+                fps.append(["<fresh interpreter replay failed: %s>" % (out.stderr[-500:],)])
     same = all(fp == fps[0] for fp in fps)
     return same and want in fps[0], fps
 
